@@ -1,7 +1,7 @@
 (* C02_Properties.v — property theorems of C02 (semaphore).  Only `exact` of lemmas proved in
    C02_Cons.v / C02_Safe.v, each followed by Print Assumptions. *)
 From Coq Require Import ZArith List Bool Arith.
-From PV Require Import Base.U64 C02.C02_Model C02.C02_Base C02.C02_Cons C02.C02_Safe C02.C02_Refute.
+From PV Require Import Base.U64 C02.C02_Model C02.C02_Base C02.C02_Cons C02.C02_Safe C02.C02_Refute C02.C02_Locks C02.C02_LockProto C02.C02_Locks2 C02.C02_Locks3.
 Import ListNotations.
 Local Open Scope Z_scope.
 
@@ -71,3 +71,9 @@ Theorem sem_ooo_abba_deadlock_refuted : exists s, reachable (init 0 true [Some O
   Forall (only_stutter s) [LAdv 0; LAdv 1; LAdv 2; LRun 0; LRun 1; LVAdv 0; LVAdv 1; LStandby 0 0; LStandby 0 1; LExpire 0 0; LExpire 0 1].
 Proof. exact ooo_abba_deadlock. Qed.
 Print Assumptions sem_ooo_abba_deadlock_refuted.
+
+(* ---- footprint_protected (in-order mode): q.lock and every thread::lock are held exactly by the
+   participant whose program counter is inside the corresponding critical section ---- *)
+Theorem sem_footprint_protected : forall c ths nv s, reachable (init c false ths nv) s -> locks_inv s.
+Proof. exact locks_reachable. Qed.
+Print Assumptions sem_footprint_protected.
